@@ -14,6 +14,12 @@ CLAIMED = {
  "C13": dict(level="exploration", technique="bounded-exhaustive enumeration on the real code: 256 functions x 6 orders x all choice vectors x all 27 literal sets x 64 RNG seeds (exact stream replay); cube predicted from the truth-table model",
              text="For every function, order, per-level choice vector and literal set the exact expected cube is derived from the model (forced / don't-care / choice) and compared, the choice-closure protocol is recorded and checked, and uniform picking is replayed draw by draw against models-proportional branch probabilities.",
              note="uniformity is established by exact agreement with the model's branch probabilities, not by statistics; n<=4", ref="3/C13"),
+ "C08": dict(level="model_checking", technique="bounded-exhaustive exploration of the real code: all source orders x all (partial) requests with all functions alive (n=3; n=4 totals), depth-bounded histories of reorderings mixed with operations/drops/gc; model oracle (tables, Kendall-tau minimum, minimal diagram size) + structural/ref-count audit; one process-isolated group per case",
+             text="Every (source order, request) pair is executed on the real manager with every function alive and checked against the model (order established, minimal number of adjacent swaps by brute force, every table preserved, canonical, exact reference counts, minimal node counts); chains of reorderings interleaved with operations, drops and gc are enumerated to a depth bound and every state is audited and compared with a manager built directly in the final order.",
+             note="sequential bubble sort only in this revision (the concurrent variant needs >= 65536 nodes; see DESIGN.md); MTBDD/TDD reordering not yet enumerated; orders on >4 variables not enumerated", ref="3/C08"),
+ "C11": dict(level="exploration", technique="bounded-exhaustive operand-tuple enumeration on the real code (n=1: all 27^2 pairs and 27^3 triples; n=2: all 19683 functions x representative set, thorough all 19683^2 pairs) against literal three-valued truth tables",
+             text="Every operand tuple over the one-variable three-valued functions and (quick) every two-variable function against a 60-function set, in both orders, is executed and compared with tables typed in from the property statement; constants, var, not, cofactors and eval under all three-valued assignments included.",
+             note="n<=2; ite for n=2 over representative sets; index backend", ref="3/C11"),
 }
 PENDING = {}
 props=[json.loads(l) for l in open('/verif/properties.jsonl')]
